@@ -44,7 +44,7 @@ func NewWorld(dir string, rng *rand.Rand) (*World, error) {
 
 // MkAuth builds a GCA-signed authorization with plain field values.
 func (w *World) MkAuth(id uint32, pub [32]byte, capacity uint64) refenc.Auth {
-	a := refenc.Auth{ID: id, Pub: pub, Lat: float64(w.Rng.Intn(120) - 60), Long: float64(w.Rng.Intn(300) - 150), Capacity: capacity,
+	a := refenc.Auth{ID: id, Pub: pub, Lat: float64(w.Rng.Intn(120)-60) + float64(w.Rng.Intn(1000))/1000, Long: float64(w.Rng.Intn(300)-150) + float64(w.Rng.Intn(1000))/1000, Capacity: capacity, // three decimals, as the README asks for: emission rates are fractional
 		Debt: uint64(w.Rng.Intn(1000)), Expiration: 100000 + uint32(w.Rng.Intn(1000)), Initialization: uint32(w.Rng.Intn(100)), Fee: uint64(w.Rng.Intn(100000))}
 	return a.Signed(w.GCA.Priv)
 }
